@@ -1,8 +1,13 @@
 (** C41 — filestore references and the filestore root (filestore/fsrefstore.go).
 
     Executable model of the mechanism, transcribed from the Go sources:
-      putTo            filepath.HasPrefix(FullPath, root)  (a plain STRING prefix test on Unix),
-                       then p, err := filepath.Rel(root, FullPath); the stored reference is ToSlash(p)
+      IsURL            "http://x" / "https://x" shaped strings (case-sensitive, by position)
+      putTo            a URL-shaped FullPath is stored VERBATIM when AllowUrls (no containment check);
+                       otherwise, when AllowFiles: filepath.HasPrefix(FullPath, root)  (a plain STRING
+                       prefix test on Unix), then p, err := filepath.Rel(root, FullPath); the stored
+                       reference is ToSlash(p)
+      readDataObj      the dispatcher: a URL-shaped stored reference goes to readURLDataObj (which
+                       refuses unless AllowUrls), anything else to readFileDataObj (refuses unless AllowFiles)
       readFileDataObj  abspath := filepath.Join(root, FromSlash(stored)); open, ReadAt, re-hash
     together with the lexical path functions of Go's path/filepath on Unix that
     they use: Clean (stack of components), Rel (strip the common components, one
@@ -152,65 +157,149 @@ Definition cpath_eqb (a b : cpath) : bool :=
      | _, _ => false
      end) (cp_comps a) (cp_comps b).
 
+(** ---------- reference kinds, flags, the read-side dispatcher ---------- *)
+(** filestore.IsURL: len > 7, "http" and then "s://" (len > 8) or "://" *)
+Definition is_url (s : str) : bool :=
+  match s with
+  | c0 :: c1 :: c2 :: c3 :: c4 :: c5 :: c6 :: c7 :: r =>
+      (c0 =? 104) && (c1 =? 116) && (c2 =? 116) && (c3 =? 112) &&
+      ((negb (is_nil r) && (c4 =? 115) && (c5 =? 58) && (c6 =? sl) && (c7 =? sl)) ||
+       ((c4 =? 58) && (c5 =? sl) && (c6 =? sl)))
+  | _ => false
+  end.
+
+(** result of Put *)
+Inductive pres := PStored (s : str) | PRejected | PNotEnabled.
+
+(** putTo under the flags set at Put time *)
+Definition put_ref (f_string_prefix : bool) (allow_files allow_urls : bool) (root p : str) : pres :=
+  if is_url p then (if allow_urls then PStored p else PNotEnabled)
+  else if allow_files then
+    match put f_string_prefix root p with Some s => PStored s | None => PRejected end
+  else PNotEnabled.
+
+(** what Get / Verify do with a stored reference under the flags set at read time *)
+Inductive rdisp :=
+| DUrl                 (* fetched over HTTP; no local path is opened *)
+| DFile (c : cpath)    (* this local path is opened *)
+| DNotEnabled.         (* ErrUrlstoreNotEnabled / ErrFilestoreNotEnabled *)
+
+Definition read_disp (allow_files allow_urls : bool) (root stored : str) : rdisp :=
+  if is_url stored then (if allow_urls then DUrl else DNotEnabled)
+  else if allow_files then DFile (resolved root stored) else DNotEnabled.
+
+(** specification: whatever the flags at read time, the local path opened for a
+    stored reference (if any) lies inside the root *)
+Definition confined (root stored : str) : bool :=
+  forallb (fun fl : bool * bool =>
+             match read_disp (fst fl) (snd fl) root stored with
+             | DFile c => inside root c
+             | _ => true
+             end)
+          [(false, false); (false, true); (true, false); (true, true)].
+
 (** ---------- correspondence ---------- *)
-(** what Get answered after an accepted Put *)
+(** what Get answered *)
 Inductive gres :=
-| GSame         (* the bytes of the referenced file (the block that was put) *)
+| GSame         (* the bytes of the block that was put *)
 | GNotFound     (* CorruptReferenceError StatusFileNotFound *)
 | GChanged      (* CorruptReferenceError StatusFileChanged *)
+| GNotEnabled   (* ErrFilestoreNotEnabled / ErrUrlstoreNotEnabled *)
 | GOther        (* any other error *)
-| GNone.        (* Put was rejected; Get not attempted / block absent *)
+| GNone.        (* no reference stored: ipld.ErrNotFound / StatusKeyNotFound *)
 
 Definition gres_eqb (a b : gres) : bool :=
   match a, b with
-  | GSame, GSame | GNotFound, GNotFound | GChanged, GChanged | GOther, GOther | GNone, GNone => true
+  | GSame, GSame | GNotFound, GNotFound | GChanged, GChanged | GNotEnabled, GNotEnabled
+  | GOther, GOther | GNone, GNone => true
   | _, _ => false
   end.
 
-(** what opening and reading the (lexically cleaned) FullPath gives on the test tree *)
+(** what opening and reading a local path gives on the test tree *)
 Inductive fkind := FRegular | FMissing | FOther.
 
+Definition pres_eqb (a b : pres) : bool :=
+  match a, b with
+  | PStored x, PStored y => str_eqb x y
+  | PRejected, PRejected | PNotEnabled, PNotEnabled => true
+  | _, _ => false
+  end.
+
 (** A case written by the harness: the root the FileManager was created with,
-    PosInfo.FullPath, what is found at FullPath, whether Put succeeded, DataObj.FilePath as found in the
-    datastore afterwards, and Get's answer. *)
+    PosInfo.FullPath, AllowFiles/AllowUrls at Put time, what Put answered (the
+    stored DataObj.FilePath is read back from the datastore), AllowFiles/AllowUrls
+    at read time (same datastore), what is found on the test tree at
+    Join(root, stored) (the block's bytes are what is planted there, if
+    anything), what fetching the stored string as a URL gives (the block's bytes
+    from the harness' HTTP server, or an error), what Get answered and the
+    status class Verify reported. *)
 Record case := Case {
   k_root : str;
   k_path : str;
+  k_put_files : bool;
+  k_put_urls : bool;
+  k_put : pres;
+  k_get_files : bool;
+  k_get_urls : bool;
   k_kind : fkind;
-  k_accepted : bool;
-  k_stored : str;
-  k_get : gres
+  k_fetch : gres;
+  k_get : gres;
+  k_verify : gres
 }.
 
-Definition opt_str_eqb (a b : option str) : bool :=
-  match a, b with
-  | Some x, Some y => str_eqb x y
-  | None, None => true
-  | _, _ => false
+Definition of_kind (k : fkind) : gres :=
+  match k with FRegular => GSame | FMissing => GNotFound | FOther => GOther end.
+
+(** the model's prediction of Get for what Put stored *)
+Definition model_get (k : case) (stored : pres) : gres :=
+  match stored with
+  | PStored s =>
+      match read_disp (k_get_files k) (k_get_urls k) (k_root k) s with
+      | DUrl => k_fetch k
+      | DFile _ => of_kind (k_kind k)
+      | DNotEnabled => GNotEnabled
+      end
+  | _ => GNone
   end.
+
+(** Verify reports a status code: "not enabled" is an "other error" there *)
+Definition verify_of (g : gres) : gres := match g with GNotEnabled => GOther | x => x end.
 
 (** the model's prediction under defect flag [f] *)
 Definition model_eq (f : bool) (k : case) : bool :=
-  let m := put f (k_root k) (k_path k) in
-  opt_str_eqb m (if k_accepted k then Some (k_stored k) else None) &&
-  gres_eqb (k_get k)
-           (match m with
-            | Some _ => match k_kind k with FRegular => GSame | FMissing => GNotFound | FOther => GOther end
-            | None => GNone
-            end).
+  let m := put_ref f (k_put_files k) (k_put_urls k) (k_root k) (k_path k) in
+  pres_eqb m (k_put k) &&
+  gres_eqb (k_get k) (model_get k m) &&
+  gres_eqb (k_verify k) (verify_of (model_get k m)).
 
-(** the specification, on a put outcome *)
-Definition spec_on (root : str) (accepted : bool) (stored : str) : bool :=
-  if accepted then inside root (resolved root stored) else true.
+(** the specification on what was observed:
+    - the stored reference is confined: under every flag setting at read time the
+      local path the dispatcher opens for it (if any) is inside the root;
+    - bytes are served only through a door that is open and legitimate: a URL
+      reference only by the URL reader and only when AllowUrls is on (never from a
+      local file), a file reference only from a local path inside the root and
+      only when AllowFiles is on. *)
+Definition served_ok (k : case) (g : gres) : bool :=
+  match g, k_put k with
+  | GSame, PStored s =>
+      if is_url s then k_get_urls k
+      else k_get_files k && inside (k_root k) (resolved (k_root k) s)
+  | GSame, _ => false
+  | _, _ => true
+  end.
+
+Definition spec_case (k : case) : bool :=
+  (match k_put k with PStored s => confined (k_root k) s | _ => true end) &&
+  served_ok k (k_get k) && served_ok k (k_verify k).
 
 Definition check_case (k : case) : verdict :=
-  if spec_on (k_root k) (k_accepted k) (k_stored k) then
+  if spec_case k then
     (if model_eq false k || model_eq true k then VOk else VModelMismatch)
   else
-    (* the implementation stored a reference that resolves outside the root *)
+    (* a reference that resolves outside the root was stored or served *)
     if model_eq true k &&
-       (match put false (k_root k) (k_path k) with
-        | Some s => inside (k_root k) (resolved (k_root k) s)
-        | None => true
+       (match put_ref false (k_put_files k) (k_put_urls k) (k_root k) (k_path k) with
+        | PStored s => confined (k_root k) s
+        | _ => true
         end)
     then VKnown 1 else VSpecFail.
